@@ -11,22 +11,23 @@
      C03_fp_read_spec : supported l -> fp_read false (enc_file l t) = Some (canon t)
    where fp_read is the impl model of core.read_col / read_data_page / read_data_page_v2.
    Proved part: the impl model of the v1 page reader (Impl/RPages.v: read_data_page + the page part of
-   read_col) reads every v1 data page of every layout back to the page's denotation
-   (C03_fp_read_page_v1_spec_partial).  Missing: the v2 page reader (read_data_page_v2 with its in-place
-   fast paths), the page loop of read_col over a chunk, DELTA_BINARY_PACKED, and the native decoders
-   themselves (represented by the specification decoders; C11 proves that for widths <= 24).  For the
+   read_col) reads every v1 data page of every layout (incl. DELTA_BINARY_PACKED) back to the page's
+   denotation (C03_fp_read_page_v1_spec_partial).  Missing: the v2 page reader (read_data_page_v2 with its
+   in-place fast paths), the page loop of read_col over a chunk, and the native decoders themselves
+   (represented by the specification decoders; C11 proves that for widths <= 24).  For the
    missing parts the reader is tied to the specification by the per-run oracle only
    (harness/props/C03.py: fastparquet's result = table_of on every generated file).                *)
 From Coq Require Import String.
 From Coq Require Import NArith ZArith List Bool Arith.
 From Pq Require Import Base.Bytes Base.ListX Codec.Hybrid Thrift.Compact Format.Phys Format.Meta Format.Page
   Format.ChunkLayout Format.File Format.Enc
-  Impl.RPages Proofs.HybridProofs Proofs.FormatCodecProofs Proofs.FormatPageProofs Proofs.FormatChunkProofs Proofs.RPagesProofs.
+  Impl.RPages Proofs.HybridProofs Proofs.FormatCodecProofs Proofs.FormatPageProofs Proofs.FormatChunkProofs Proofs.RPagesProofs
+  Proofs.FormatFileProofs.
 Import ListNotations.
 Open Scope list_scope.
 Open Scope N_scope.
 
-Theorem C03_spec_page_roundtrip_partial :
+Theorem C03_spec_page_roundtrip :
   forall (compress : Z -> bytes -> bytes) (decompress : Z -> N -> bytes -> option bytes),
   (forall codec b, decompress codec (lenN b) (compress codec b) = Some b) ->
   forall strict cd codec dict it c,
@@ -34,9 +35,9 @@ Theorem C03_spec_page_roundtrip_partial :
   let hp := enc_item compress cd codec it in
   dec_page decompress strict cd codec dict (fst hp) (snd hp) = ROk c.
 Proof. exact item_roundtrip. Qed.
-Print Assumptions C03_spec_page_roundtrip_partial.
+Print Assumptions C03_spec_page_roundtrip.
 
-Theorem C03_spec_chunk_roundtrip_partial :
+Theorem C03_spec_chunk_roundtrip :
   forall (compress : Z -> bytes -> bytes) (decompress : Z -> N -> bytes -> option bytes),
   (forall codec b, decompress codec (lenN b) (compress codec b) = Some b) ->
   forall strict cd codec its clock dict pages cells nulls contents,
@@ -49,12 +50,23 @@ Theorem C03_spec_chunk_roundtrip_partial :
          rev cells ++ concat (map content_cells contents),
          nulls + fold_right N.add 0 (map content_nulls contents)).
 Proof. exact scan_pages_roundtrip. Qed.
-Print Assumptions C03_spec_chunk_roundtrip_partial.
+Print Assumptions C03_spec_chunk_roundtrip.
+
+(* what the generated files encode: the specification decoder reads every well-formed laid-out file back
+   to its denotation (file level; `_partial` only because footer_ok - representability and IDL conformance
+   of the encoder's own footer - is a decidable hypothesis, see props/C02.v) *)
+Theorem C03_spec_roundtrip_dec_partial :
+  forall (compress : Z -> bytes -> bytes) (decompress : Z -> N -> bytes -> option bytes),
+  (forall codec b, decompress codec (lenN b) (compress codec b) = Some b) ->
+  forall strict f t, lfile_wf compress f -> table_of f = Some t ->
+  dec_file decompress strict (enc_file compress f) = ROk t.
+Proof. exact spec_roundtrip_dec. Qed.
+Print Assumptions C03_spec_roundtrip_dec_partial.
 
 (* impl model of fastparquet's v1 page reader (foreign files: selfmade = false) on the raw bytes of
    any v1 data page the specification encoder can write - optional or required, PLAIN for every
    physical type, dictionary indices of any width 0..32 in any mixture of RLE and bit-packed runs,
-   RLE booleans, any trailing bytes - returns exactly the cells the page denotes.
+   RLE booleans, DELTA_BINARY_PACKED, any trailing bytes - returns exactly the cells the page denotes.
    (Full statement: the same for fp_read over whole files, see the header of this file.) *)
 Theorem C03_fp_read_page_v1_spec_partial : forall cd dict p cs,
   page_wf cd p -> store_ok_for_reader cd (lp_store p) -> page_cells cd dict p = Some cs ->
